@@ -122,6 +122,12 @@ func symbolizeMapping(source string, offset int64, syms func(string, string) ([]
 
 	lines := make(map[uint64]profile.Line)
 	functions := make(map[string]*profile.Function)
+	var maxFunctionID uint64
+	for _, f := range p.Function {
+		if f.ID > maxFunctionID {
+			maxFunctionID = f.ID
+		}
+	}
 
 	b, err := syms(source, strings.Join(a, "+"))
 	if err != nil {
@@ -153,8 +159,9 @@ func symbolizeMapping(source string, offset int64, syms func(string, string) ([]
 			name := symbol[2]
 			fn := functions[name]
 			if fn == nil {
+				maxFunctionID++
 				fn = &profile.Function{
-					ID:         uint64(len(p.Function) + 1),
+					ID:         maxFunctionID,
 					Name:       name,
 					SystemName: name,
 				}
